@@ -123,12 +123,14 @@ func mentionsCopyOf(info *types.Info, f *Fn, e ast.Node, fld *types.Var) bool {
 			return true
 		}
 		nDef, fromField := 0, false
+		seen := map[*ast.AssignStmt]bool{} // the body of a literal is part of the bodies of its parents
 		for g := f; g != nil; g = g.Parent {
 			ast.Inspect(g.Body(), func(y ast.Node) bool {
 				as, ok := y.(*ast.AssignStmt)
-				if !ok || len(as.Lhs) != len(as.Rhs) {
+				if !ok || len(as.Lhs) != len(as.Rhs) || seen[as] {
 					return true
 				}
+				seen[as] = true
 				for i, l := range as.Lhs {
 					if identObj(info, l) == types.Object(v) {
 						nDef++
